@@ -373,7 +373,10 @@ def run_history(case, root, ID, ls_after_each=False):
             for k2, v2 in m.stats.items():
                 probes[k2] = probes.get(k2, 0) + v2
             m.stats = {}
-            note_usage(probes, usage, inst, stmts, mscope)
+            try:
+                note_usage(probes, usage, inst, stmts, mscope)
+            except Unspec:
+                pass
             if ls_after_each and not check_names(idx, inst, mscope, senv):
                 break
             # repeat: same failing command, same cause -> same error
@@ -488,7 +491,10 @@ def note_usage(probes, usage, inst, stmts, scope):
     def norm(spec):
         mid = spec.get("id", spec.get("str", ""))
         if "id" in spec:
-            s2 = scope.lookup(mid) if mid not in scope.unspec else None
+            try:
+                s2 = scope.lookup(mid)
+            except Unspec:
+                s2 = None
             if s2 is not None and isinstance(s2.vars.get(mid), str):
                 mid = s2.vars[mid]
         mid = mid.split("/")[-1]
